@@ -10,7 +10,10 @@ META = {
     "bounds": "L1: session-table key (coap_make_addr_hash) for every pair of IPv4/IPv6 remote addresses, ports, local ports, scope ids "
               "and protocols: equal keys iff same peer tuple (this is what uthash compares after hashing); S2: reference/release from "
               "every count 1..999 for client and server sessions; S3: idle reclamation in coap_io_prepare_io_lkd for one server session "
-              "in every state (ref 0..2, held message or not, last activity, clock, session_timeout 0..600 s, never-established).",
+              "in every state (ref 0..2, held message or not, last activity, clock, session_timeout 0..600 s, never-established); S4: eviction of the "
+              "oldest idle of 3 sessions (real uthash, concrete keys); S5: a queued Confirmable parked on the delay queue returns its reference; "
+              "S6: client-session loop of coap_io_prepare_io_lkd with keepalive (ping_timeout 0..600 s, Confirmable in flight or not): temporary "
+              "reference paired; B1: coap_free_context_lkd with leak checking on the listed client- and server-side shapes.",
     "outside": "the uthash table itself (SESSIONS_FIND/ADD inside coap_endpoint_get_session: third-party macros, not encoded - the 1:1 "
                "claim rests on key injectivity); "
                "coap_free_context_lkd teardown beyond the B1 shapes (one client session with async/queued/held messages; one endpoint with one idle server session and a pending async entry); holders' reference pairing is decided in C06/C07/C11 jobs (which run with "
@@ -33,6 +36,12 @@ def jobs():
     js.append(Job("S4-evict-oldest-idle", "C12/c12.c", "c12_s4_evict", UNITS, extra_src=EXTRA, defines=CUT, remove_bodies=RB, unwind=40, flags=FS, est_gb=4, timeout=1500,
                   desc="datagram from a new peer with 3 server sessions in the real uthash table: oldest idle one reclaimed at max_idle_sessions",
                   bounds={"sessions": 3, "max_idle_sessions": "0..4"}))
+    js.append(Job("S5-park-node", "C12/c12.c", "c12_s5_park_node", UNITS, extra_src=EXTRA, defines=CUT, remove_bodies=RB, unwind=18, flags=FS, est_gb=3,
+                  desc="a queued Confirmable parked on the delay queue (coap_session_delay_pdu with its node) gives its session reference back once",
+                  bounds={"ref": "1..999", "queue": "1-2 nodes"}))
+    js.append(Job("S6-client-loop", "C12/c12.c", "c12_s6_client_loop", UNITS, extra_src=EXTRA, defines=CUT, remove_bodies=RB, unwind=18, flags=FS, est_gb=4, timeout=1500,
+                  desc="coap_io_prepare_io_lkd over one client session: temporary reference released on every path incl. a refused keepalive ping",
+                  bounds={"sessions": 1, "ping_timeout": "0..600 s"}))
     # B1: context teardown with the real session release/free chain; memory-leak + deallocated-object obligations
     cutb = [c for c in CUT if c != "UNREACH_SESSION_FREE"]
     rbb = [r for r in RB if r not in ("coap_session_free", "coap_proxy_remove_association")]
